@@ -3,12 +3,25 @@
 //! Harness naming: `cNN_q_<what>` runs in the quick and the thorough tier, `cNN_t_<what>` in the
 //! thorough tier only. Every harness carries `/// K:` metadata lines (parsed by
 //! /verif/lib/kani_driver.py), at least one `kani::cover!` that must be SATISFIED (vacuity guard),
-//! and states its bound. Unwinding assertions stay on.
+//! and states its bound. Unwinding assertions stay on. Harnesses sit at the top level of their
+//! module file (the driver appends concrete-playback tests at the end of that file).
 #![allow(dead_code, unused_comparisons, unused_macros, unused_imports, unused_assignments)]
 
 #[cfg(kani)]
 mod tok;
 #[cfg(kani)]
+mod c02;
+#[cfg(kani)]
+mod c03;
+#[cfg(kani)]
+mod c12;
+#[cfg(kani)]
+mod c13;
+#[cfg(kani)]
 mod c17;
 #[cfg(kani)]
 mod c18;
+#[cfg(kani)]
+mod c19;
+#[cfg(kani)]
+mod c20;
